@@ -3,7 +3,7 @@ CONSTANTS
   GenChunk = "whole"
   Modes = {"tmux", "win"}
   ExpType <- MC_ExpType
-  LineTypes <- MC_LineTypes
+  LineTypes <- MC_LineTypes1
   PayBytes = {97, 98}
   MaxPay = 1
   MaxLines = 2
